@@ -81,6 +81,16 @@ class Interp(object):
     def st_AugAssign(self, s):
         cur = self.ev(_load(s.target))
         rhs = self.ev(s.value)
+        from .values import VRef, ListCell
+        if isinstance(s.op, ast.Add) and isinstance(cur, VRef) and \
+                isinstance(self.ctx.cell(cur), ListCell):
+            # list += iterable extends IN PLACE (aliases see it)
+            items = models.iter_concrete(self, rhs)
+            if items is None:
+                raise Unsupported('list += symbolic-length iterable')
+            self.ctx.cell(cur).items.extend(items)
+            self.assign(s.target, cur)
+            return
         v = self.binop(s.op, cur, rhs, s)
         self.assign(s.target, v)
 
